@@ -24,14 +24,18 @@
 (***************************************************************************)
 EXTENDS QuatAlg
 
-CONSTANTS GMax      \* quaternion grid
+CONSTANTS GMax,     \* quaternion grid
+          Stride,   \* the binding cases use every Stride-th quaternion of the grid (1: all)
+          Bind      \* TRUE: every state carries the numerators the routines must return; FALSE: identities only
 
 VARIABLES case, expected
 vars == <<case, expected>>
 
 G == (0 - GMax)..GMax
-Quats == {q \in [1..4 -> G] : \E i \in 1..4 : q[i] # 0}
-Vecs == {<<0, 0, 0>>, <<1, 0, 0>>, <<0, 0 - 2, 1>>, <<2, 1, 0 - 1>>}
+AllQuats == {q \in [1..4 -> G] : \E i \in 1..4 : q[i] # 0}
+\* a deterministic thinning of the grid that keeps every residue class of every component
+Quats == {q \in AllQuats : (q[1] + 3 * q[2] + 7 * q[3] + 13 * q[4]) % Stride = 0}
+Vecs == {<<0, 0, 0>>, <<0, 0 - 2, 1>>, <<2, 1, 0 - 1>>}
 VAdd(a, b) == <<a[1] + b[1], a[2] + b[2], a[3] + b[3]>>
 VScale(c, a) == <<c * a[1], c * a[2], c * a[3]>>
 E3(j) == [i \in 1..3 |-> IF i = j THEN 1 ELSE 0]
@@ -85,6 +89,11 @@ RigidExpected(c) ==
      v_P_P |-> [k \in 1..4 |-> MatVec(dRnum(P, k), Cross(c.w, c.b))],          \* / s^2
      a_P_P |-> [k \in 1..4 |-> MatVec(dRnum(P, k), AccBody(c.w, c.psi, c.b))], \* / s^2
      J_P_w |-> [j \in 1..3 |-> MatVec(N(P), Cross(E3(j), c.b))],               \* / s   (columns for w_j)
+     J_P_wP |-> [j \in 1..3 |-> [k \in 1..4 |-> MatVec(dRnum(P, k), Cross(E3(j), c.b))]],   \* / s^2
+     kappa_P_P |-> [k \in 1..4 |-> MatVec(dRnum(P, k), Cross(c.w, Cross(c.w, c.b)))],         \* / s^2
+     qdot_P |-> [k \in 1..4 |-> [i \in 1..4 |-> dTi(P, k)[i][1] * c.w[1] + dTi(P, k)[i][2] * c.w[2] + dTi(P, k)[i][3] * c.w[3]]],   \* 2 d(P_dot)/dP_k
+     Ti |-> Ti(P),                                                             \* 2 d(P_dot)/dw
+     A |-> N(P), A_P |-> [k \in 1..4 |-> dRnum(P, k)],                          \* / s, / s^2
      a_P_w |-> [j \in 1..3 |-> MatVec(N(P), VAdd(Cross(E3(j), Cross(c.w, c.b)), Cross(c.w, Cross(E3(j), c.b))))],   \* / s
      h |-> Gyro(c.w), theta |-> Theta,
      h_w |-> [j \in 1..3 |-> VScale(0 - 1, VAdd(Cross(E3(j), MatVec(Theta, c.w)), Cross(c.w, MatVec(Theta, E3(j)))))]]
@@ -98,18 +107,39 @@ Pt(c) == [i \in 1..4 |-> c.P0[i] + c.t * c.P1[i]]
 FrameWellFormed(c) == \E i \in 1..4 : Pt(c)[i] # 0
 \* body angular velocity of R(P(t)):  T(P) Pdot = 2 Tn(P) P1 / s
 OmegaNum(c) == LET T == Tn(Pt(c)) IN [i \in 1..3 |-> 2 * (T[i][1] * c.P1[1] + T[i][2] * c.P1[2] + T[i][3] * c.P1[3] + T[i][4] * c.P1[4])]
-FrameOK(c) == TRUE
+\* s(t) and N(P(t)) are quadratic in t: central differences with step 1 are their exact time derivatives
+PtAt(c, tt) == [i \in 1..4 |-> c.P0[i] + tt * c.P1[i]]
+Sdot(c) == (S(PtAt(c, c.t + 1)) - S(PtAt(c, c.t - 1))) \div 2
+Ndot(c) == LET a == N(PtAt(c, c.t + 1))  b == N(PtAt(c, c.t - 1)) IN [i \in 1..3 |-> [j \in 1..3 |-> (a[i][j] - b[i][j]) \div 2]]
+\* s^2 Psi: the body angular acceleration is the rate of Omega = OmegaNum / s, and OmegaNum does not depend on t
+PsiNum(c) == VScale(0 - Sdot(c), OmegaNum(c))
+\* the reported angular velocity is that of the rotation:  R_dot = R skew(Omega), cleared by s^2:  s N_dot - s_dot N = N skew(OmegaNum)
+FrameSpinIsRate(c) == LET P == Pt(c) IN MatSub(MatScale(S(P), Ndot(c)), MatScale(Sdot(c), N(P))) = MatMul(N(P), Skew(OmegaNum(c)))
+OmegaNumConstant(c) == LET T1 == Tn(PtAt(c, c.t + 1))  T0 == Tn(Pt(c)) IN
+    \A i \in 1..3 : T1[i][1] * c.P1[1] + T1[i][2] * c.P1[2] + T1[i][3] * c.P1[3] + T1[i][4] * c.P1[4] = T0[i][1] * c.P1[1] + T0[i][2] * c.P1[2] + T0[i][3] * c.P1[3] + T0[i][4] * c.P1[4]
+FrameOK(c) == FrameSpinIsRate(c) /\ OmegaNumConstant(c)
 FrameExpected(c) ==
-    LET P == Pt(c)  s == S(P) IN
+    LET P == Pt(c)  s == S(P)  om == OmegaNum(c)  r_t == VAdd(R1, VScale(2 * c.t, R2)) IN
     [s |-> s, P |-> P,
      r |-> VAdd(VAdd(R0, VScale(c.t, R1)), VScale(c.t * c.t, R2)),
-     r_t |-> VAdd(R1, VScale(2 * c.t, R2)), r_tt |-> VScale(2, R2),
+     r_t |-> r_t, r_tt |-> VScale(2, R2),
      A |-> N(P),                                                              \* / s
-     Omega |-> OmegaNum(c)]                                                   \* / s   (body-fixed)
+     r_OP |-> VAdd(VScale(s, VAdd(VAdd(R0, VScale(c.t, R1)), VScale(c.t * c.t, R2))), MatVec(N(P), c.b)),   \* / s
+     Omega |-> om,                                                            \* / s   (body-fixed)
+     Psi |-> PsiNum(c),                                                       \* / s^2 (body-fixed)
+     v_P |-> VAdd(VScale(s * s, r_t), MatVec(N(P), Cross(om, c.b))),           \* / s^2
+     a_P |-> VAdd(VScale(s * s * s, VScale(2, R2)), MatVec(N(P), VAdd(Cross(PsiNum(c), c.b), Cross(om, Cross(om, c.b)))))]   \* / s^3
 
-Init == /\ case \in RigidCases \cup {c \in FrameCases : FrameWellFormed(c)}
-        /\ expected = IF case.kind = "rigid" THEN RigidExpected(case) ELSE FrameExpected(case)
+\* -------------------------------------------------------------- point mass
+PointCases == [kind : {"point"}, r : {<<1, 0 - 2, 3>>, <<0, 0, 0>>}, v : Vecs, a : {<<0, 1, 0 - 2>>}, b : Vecs, m : {1, 3}]
+PointExpected(c) ==
+    [r_OP |-> VAdd(c.r, c.b), v_P |-> c.v, a_P |-> c.a, M |-> MatScale(c.m, I3), ekin2 |-> c.m * Dot3(c.v, c.v)]
+\* twice the kinetic energy is u^T M u, and M is symmetric positive definite
+PointOK(c) == LET e == PointExpected(c) IN e.ekin2 = Dot3(c.v, MatVec(e.M, c.v)) /\ c.m > 0 /\ MatT(e.M) = e.M
+
+Init == /\ case \in RigidCases \cup {c \in FrameCases : FrameWellFormed(c)} \cup PointCases
+        /\ expected = IF ~Bind THEN <<>> ELSE CASE case.kind = "rigid" -> RigidExpected(case) [] case.kind = "frame" -> FrameExpected(case) [] OTHER -> PointExpected(case)
 Next == UNCHANGED vars
 Spec == Init /\ [][Next]_vars
-CaseOK == IF case.kind = "rigid" THEN RigidOK(case) ELSE FrameOK(case)
+CaseOK == CASE case.kind = "rigid" -> RigidOK(case) [] case.kind = "frame" -> FrameOK(case) [] OTHER -> PointOK(case)
 =============================================================================
